@@ -275,13 +275,36 @@ theorem isEmpty_eq (e : Env) (s : Seq) :
   obtain ⟨a, r, sa, sr⟩ := s
   cases sa <;> cases sr <;> (first | rfl | wrap_simp)
 
+/-- `Sequence.is_channel_consistent`: the absolute view is read (regenerated if stale) and every channel compared with the first -/
+theorem isChannelConsistent_eq (e : Env) (s : Seq) :
+    Gen.Wrap.isChannelConsistent e s =
+      (do let p ← s.readAbs; pure (p.1, p.2.all (fun m => m.ch == (p.2.headD default).ch))) := by
+  obtain ⟨a, r, sa, sr⟩ := s
+  cases sa <;> cases sr <;>
+    simp [Gen.Wrap.isChannelConsistent, Gen.Wrap.getAbs, View.abs_is_channel_consistent, Seq.readAbs,
+      View.rel_to_absolute_sequence] <;> (first | rfl | wrap_simp)
+
+/-- `Sequence.get_sequence_channel`: the first channel of the absolute view if all agree; `SequenceException` / `IndexError` otherwise -/
+theorem getSequenceChannel_eq (e : Env) (s : Seq) :
+    Gen.Wrap.getSequenceChannel e s =
+      (do let p ← s.readAbs
+          if p.2.all (fun m => m.ch == (p.2.headD default).ch) then
+            (match p.2.head? with | some m => pure (p.1, m.ch) | none => throw .indexError)
+          else throw .sequenceError) := by
+  obtain ⟨a, r, sa, sr⟩ := s
+  cases sa <;> cases sr <;>
+    simp [Gen.Wrap.getSequenceChannel, Gen.Wrap.getAbs, View.abs_get_sequence_channel, Seq.readAbs,
+      View.rel_to_absolute_sequence] <;>
+    (first | rfl | (split <;> (first | rfl | (split <;> simp_all [ok_bind, error_bind]))))
+
 /-- every method the translator is asked for is covered by a theorem above (tripwire: a method added to
     the translator's list without an equality theorem fails here) -/
 theorem translated_covered :
     Gen.Wrap.translated = ["invalidate_abs", "invalidate_rel", "abs", "rel", "refresh", "copy", "add_absolute_message",
       "add_relative_message", "normalise", "concatenate", "cutoff", "merge", "messages_abs", "messages_rel",
       "overwrite_absolute_messages", "overwrite_relative_messages", "pad", "set_channel", "split", "quantise",
-      "quantise_note_lengths", "quantise_and_normalise", "scale", "transpose", "get_sequence_duration", "is_empty", "equals"] := by
+      "quantise_note_lengths", "quantise_and_normalise", "scale", "transpose", "get_sequence_duration", "is_empty", "equals",
+      "get_sequence_channel", "is_channel_consistent"] := by
   decide
 
 /-- **`Sequence.equals`**: both absolute views are read (regenerating them if stale), the flags are handed on in the order of the
